@@ -527,8 +527,7 @@ func parkedCases() []scase {
 	}
 	// ... ended by the caller's deadline instead of a cancel
 	add("unary", "R,G", "OK", "s1,c,d,r,h")
-	out = append(out, scase{Shape: "unary", Out: "-", Srv: "R,G", Fin: "OK", Cli: "s1,c,d,r,h", Via: "update"})
-	out = append(out, scase{Shape: "unary", Out: "-", Srv: "R,Ha=1,G", Fin: "E9:e0", Cli: "s1,c,d,r,h", Via: "metadata+us"})
+	out = append(out, scase{Shape: "unary", Out: "-", Srv: "R,Ha=1,G", Fin: "E9:e0", Cli: "s1,c,d,r,h", Via: "update"})
 	add("cstream", "R,R,M7,G", "OK", "s1,c,z,r") // the same window, ended by the deadline
 	add("cstream", "R,R,M7,G", "E9:e0", "s1,c,z,r")
 	add("bidi", "R,M1,G", "OK", "s1,r,z,r")
